@@ -2,6 +2,7 @@ import OpcuaModel.Base.Loop
 import OpcuaModel.Model.Tokens
 /-
   Driver for C17:
+    tokensnone <ev> …  the same on a mode-None channel (c:<chan>:<token id carried by the chunk>)
     tokens <ev> …   ev = o:<chan>:<tok>:<key> | e:<chan>:<tok>:<key> | c:<chan>:<key>
       → one verdict per chunk event (acc | noinstance | security), then
         tab=<chan>:<tok>,<tok>;…  (entries sorted by key, empty entries omitted)
@@ -35,6 +36,15 @@ def handle : List String → String
     match parseEvs r with
     | some evs =>
       let vs := (verdicts [] evs).map fun
+        | .accepted _ => "acc"
+        | .noInstance => "noinstance"
+        | .securityFailed => "security"
+      " ".intercalate (vs ++ [tableText (runEvs [] evs)])
+    | none => "bad-op"
+  | "tokensnone" :: r =>
+    match parseEvs r with
+    | some evs =>
+      let vs := (verdictsNone [] evs).map fun
         | .accepted _ => "acc"
         | .noInstance => "noinstance"
         | .securityFailed => "security"
